@@ -51,7 +51,7 @@ CLAIMED["C03"] = dict(
   design_ref="DESIGN.md §4 C03",
   note="Crash model: per-file prefix of un-fsynced writes + torn last write, no reordering inside a file, directory entries durable after SyncDir (what the code assumes). "
        "Repeated crashes: second-level enumeration on sampled first-level images (incl. crash points during the recovery run) and two-crash behaviours of StoreCrash. "
-       "Workloads are the ones the driver generates (6 + 1 directed quick / 24 + 1 thorough, ~5-10k images quick) plus 70 / 600 StoreCrash behaviours.",
+       "Workloads are the ones the driver generates (6 + 1 directed quick / 12 + 1 thorough, ~5-10k images quick) plus 70 / 600 StoreCrash behaviours.",
   technique="physical-operation hooks + exhaustive crash-point enumeration on real recovery, verdicts by TLC trace validation against Store.tla")
 
 CLAIMED["C01"] = dict(
